@@ -188,6 +188,9 @@ where
 
 #[inline(always)]
 fn fill_power_series<E: FieldElement>(result: &mut [E], base: E, start: E) {
+    if result.is_empty() {
+        return;
+    }
     result[0] = start;
     for i in 1..result.len() {
         result[i] = result[i - 1] * base;
